@@ -40,7 +40,7 @@ MANIFEST = {
     "note": "trusted: wwt_data_formats XML round trip; the URL-expansion convention",
     "technique": "deterministic simulation of call histories on one output directory (parallel stages under the seeded scheduler); model-based oracle: WTML expansion vs directory tree vs returned description",
 }
-BUDGET = {"quick": (600, 80), "thorough": (6000, 1500)}
+BUDGET = {"quick": (600, 80), "thorough": (60000, 1500)}
 REQUIRED_PROBES = {"quick": ["wf_tile_fits_tan", "wf_study", "history_reuse", "history_override"],
                    "thorough": ["wf_tile_fits_tan", "wf_tile_fits_toast", "toast_inputs_of_different_scale", "wf_study", "wf_allsky", "wf_pipeline", "wf_cli_study", "study_from_avm_tags", "wf_cli_wwtl", "history_reuse", "history_override", "scheme_LXY"]}
 CHUNK = 3
